@@ -63,7 +63,8 @@ MLine(before, after) ==
                cb |-> IF o.k \in EnvLineKinds THEN 0 ELSE IF before.cur # <<>> \/ o.k \notin {"die", "extkill", "fork"} THEN 1 ELSE 0,
                k |-> o.k, w |-> o.w, p |-> o.p, a |-> o.a, b |-> IF o.k = "reply" THEN 1 ELSE 0, c |-> 0,
                r |-> o.r, x |-> o.x]
-  IN IF o.k = "req" THEN base @@ [q |-> [after.creq EXCEPT !.G = IF @ = -1 THEN -1 ELSE @ * 100]] ELSE base
+  IN IF o.k = "req" THEN base @@ [q |-> [after.creq EXCEPT !.G = IF @ = -1 THEN -1 ELSE @ * 100]]
+     ELSE IF o.k = "reply" THEN base @@ [rc |-> ""] ELSE base
 
 \* what the read-only requests would answer in state st (commands/list.py, numprocesses.py, status.py, stats.py)
 ProbeOf(st) ==
@@ -164,7 +165,7 @@ Inv_C11 == Unexplained({"C11_unchanged", "C10_refuse"}) = {}
 Inv_C13 == Unexplained({"C13_wid"}) = {}
 Inv_C14 == Unexplained({"C14_startgate", "C14_siggate", "C14_events"}) = {}
 Inv_C15 == Unexplained({"C15_dir", "C15_views", "C15_addrm"}) = {}
-Inv_C18 == Unexplained({"C18_confine"}) = {}
+Inv_C18 == Unexplained({"C18_confine", "C18_exact"}) = {}
 Inv_C19 == Unexplained({"C19_order", "C19_pace", "C19_auto"}) = {}
 \* C10 mutual exclusion, directly on the model: at most one exclusive operation frame is alive
 Inv_C10_mutex == Cardinality({ f \in FrameIds : s.fr[f].fn \in {"op", "manage_watchers"} /\ ~s.fr[f].done }) <= 1
